@@ -317,8 +317,8 @@ def mutate(rng, s):
 
 # ------------------------------------------------------------------ the check
 class Case:
-    def __init__(self, kind, text, nest=None, cols=0, spine=None, sample=None):
-        self.kind, self.text, self.nest, self.cols, self.spine, self.sample = kind, text, nest, cols, spine, sample
+    def __init__(self, kind, text, nest=None, cols=0, spine=None, sample=None, chain=0):
+        self.kind, self.text, self.nest, self.cols, self.spine, self.sample, self.chain = kind, text, nest, cols, spine, sample, chain
 
 
 def build_cases(ctx, limit):
@@ -349,7 +349,7 @@ def build_cases(ctx, limit):
         cases.append(Case("nest:defblock", defblock_text(n, ind), nest=n, cols=n * ind))
         cases.append(Case("nest:ifblock", "".join(" " * (ind * i) + "if x, do:\n" for i in range(n)) + " " * (ind * n) + "x\n", nest=n, cols=n * ind))
     # ---- mixed nests (model kinds)
-    for _ in range(ctx.scale(150, 3000)):
+    for _ in range(ctx.scale(150, 800)):
         ks = [rng.choice(KINDS) for _ in range(rng.randint(1, 4))]
         n = rng.choice([rng.randint(1, 30), rng.randint(30, 200), rng.randint(200, 1000)])
         seq = [ks[j % len(ks)] for j in range(n)]
@@ -362,26 +362,32 @@ def build_cases(ctx, limit):
         cases.append(Case("nest:restriction", "x" + "::[" * n + "y" + "]" * n + " = 1\n"))
         cases.append(Case("nest:ascription", "x = " + "a: " * n + "Int\n"))
     # ---- long left-nested chains (no recursion in the parser; the tree is deep)
-    for n in (10, 1000) + ((5000,) if ctx.thorough else ()):
-        cases.append(Case("chain", "x = " + "1 + " * n + "1\n"))
-        cases.append(Case("chain", "x = f" + "(1)" * n + "\n"))
-        cases.append(Case("chain", "x = a" + ".b" * n + "\n"))
-        cases.append(Case("chain", "x = a" + "[0]" * n + "\n"))
+    for n in (10, 500, 1000):
+        cases.append(Case("chain", "x = " + "1 + " * n + "1\n", chain=n))
+        cases.append(Case("chain", "x = f" + "(1)" * n + "\n", chain=n))
+        cases.append(Case("chain", "x = a" + ".b" * n + "\n", chain=n))
+        cases.append(Case("chain", "x = a" + "[0]" * n + "\n", chain=n))
+        cases.append(Case("chain", "x = 1" + " |> f()" * n + "\n", chain=n))
+        cases.append(Case("chain", "x = \"" + "\\{a}" * n + "\"\n", chain=n))
+        cases.append(Case("chain", "x = " + "1, " * n + "1\n"))
+        cases.append(Case("chain", "x = 1\n" * n))
+    # witness of the known finding: the desugarer recurses on the tree of a long chain
+    cases.append(Case("chain", "x = " + "1 + " * 3000 + "1\n", chain=3000))
     # ---- structured expressions (mostly valid) and random token sequences over the model's alphabet
-    for _ in range(ctx.scale(700, 20000)):
+    for _ in range(ctx.scale(700, 4000)):
         e = "\n".join(gen_expr(rng, rng.randint(1, 6)) for _ in range(rng.randint(1, 3))) + "\n"
         if rng.random() < 0.3:
             e = mutate(rng, e)
         cases.append(Case("expr", e))
-    for _ in range(ctx.scale(1500, 40000)):
+    for _ in range(ctx.scale(1500, 8000)):
         cases.append(Case("soup", soup(rng, SOUP, SOUP_W, rng.choice([6, 12, 25, 60]))))
     # ---- random text over a wide set of lexemes
-    for _ in range(ctx.scale(1500, 40000)):
+    for _ in range(ctx.scale(1500, 8000)):
         cases.append(Case("text", soup(rng, WIDE, None, rng.choice([8, 30, 80]))))
     # ---- every .er file of the repository, truncated and mutated
     files = sorted(glob.glob(os.path.join(REPO, "examples", "**", "*.er"), recursive=True) +
                    glob.glob(os.path.join(REPO, "tests", "**", "*.er"), recursive=True))
-    per = ctx.scale(6, 120)
+    per = ctx.scale(6, 20)
     for f in files:
         s = open(f, encoding="utf-8", errors="replace").read()
         cases.append(Case("file", s, sample=os.path.relpath(f, REPO)))
@@ -392,9 +398,9 @@ def build_cases(ctx, limit):
 
 
 def judge_all(model, items):
-    """items: (nest or None, cols, ending code, nerrs) -> list of (ok, known)"""
-    out = model.run([[1, -1 if n is None else n, c, e, k] for n, c, e, k in items]) if items else []
-    return [(bool(o[0]), bool(o[1])) for o in out]
+    """items: (nest or None, cols, ending code, nerrs[, chain]) -> list of (ok, known-indent, known-chain)"""
+    out = model.run([[1, -1 if it[0] is None else it[0], it[1], it[2], it[3], it[4] if len(it) > 4 else 0] for it in items]) if items else []
+    return [(bool(o[0]), bool(o[1]), bool(o[2])) for o in out]
 
 
 def run(ctx):
@@ -443,9 +449,9 @@ def run(ctx):
         for build in ("debug", "release"):
             e, k, _ = ending(runs[build][i])
             # an input that was not run is not judged: hand the judge a vacuous observation
-            jitems.append((c.nest, c.cols, e, k) if e >= 0 else (None, 0, 1, 1))
+            jitems.append((c.nest, c.cols, e, k, c.chain) if e >= 0 else (None, 0, 1, 1, 0))
     verdicts = judge_all(model, jitems)
-    known_hit = {}
+    known_hit, chain_hit = {}, {}
     frames_for_bytes = {"debug": [], "release": []}
     for i, c in enumerate(cases):
         rd, rr = runs["debug"][i], runs["release"][i]
@@ -455,12 +461,14 @@ def run(ctx):
                  sample={"kind": c.kind, "text": c.text[:120], "debug": ending(rd)[2]} if i % 997 == 0 else None)
         ctx.count("result: " + {0: "Ok", 1: "Err", 2: "crash", 3: "hang", -1: "not run"}[ending(rd)[0]])
         for b, build in enumerate(("debug", "release")):
-            ok, known = verdicts[2 * i + b]
+            ok, known, known_chain = verdicts[2 * i + b]
             r = runs[build][i]
             if not ok:
                 failures.append((i, build, ending(r)[2]))
             elif known and c.nest is not None and c.nest <= cpy and ending(r)[0] != 0:
                 known_hit[i] = ending(r)[2]
+            elif known_chain and ending(r)[0] == 2:
+                chain_hit[i] = "%s build: %s" % (build, ending(r)[2])
             if r[0] in (0, 1) and len(r) > 6 and r[0] == 0:
                 frames_for_bytes[build].append((r[4], r[6], c.kind))
             # the invariant proved for the model must hold for every input of the implementation
@@ -525,13 +533,21 @@ def run(ctx):
     # ---- verdict
     ctx.cov["traces_validated_against_impl"] = len(mres)
     ctx.cov["disagreements"] = len(disagreements)
-    known = [k for k in json.load(open(os.path.join(VERIF, "known", "C09.json"))) if k.get("status") == "finding"]
+    known = {k["class"]: k for k in json.load(open(os.path.join(VERIF, "known", "C09.json"))) if k.get("status") == "finding"}
     for i, what in known_hit.items():
-        for entry in known:
-            ctx.known_finding(entry, "%s [witness still reproduces: %s -> %s]" % (entry["what"], cases[i].kind + " %d deep" % cases[i].nest, what))
+        if "Known_indent" in known:
+            e = known["Known_indent"]
+            ctx.known_finding(e, "%s [witness still reproduces: %s -> %s]" % (e["what"], cases[i].kind + " %d deep" % cases[i].nest, what))
         break
-    if known and not known_hit:
+    for i, what in chain_hit.items():
+        if "Known_chain" in known:
+            e = known["Known_chain"]
+            ctx.known_finding(e, "%s [witness still reproduces: chain of %d operations -> %s]" % (e["what"], cases[i].chain, what))
+        break
+    if "Known_indent" in known and not known_hit:
         ctx.notes.append("NOTE stale-known-finding: blocks indented beyond 100 columns are no longer rejected")
+    if "Known_chain" in known and not chain_hit:
+        ctx.notes.append("NOTE stale-known-finding: a chain of 3000 operations no longer crashes the desugarer")
     reported = confirmed = 0
     seen = set()
     for i, build, what in failures:
@@ -543,7 +559,7 @@ def run(ctx):
         # confirm on its own (a loaded machine can make one answer in a long batch late)
         r0 = Runner(ctx, build == "release", stack[build]).run([c.text])[0]
         e0, k0, what0 = ending(r0)
-        if judge_all(model, [(c.nest, c.cols, e0, k0)])[0][0]:
+        if judge_all(model, [(c.nest, c.cols, e0, k0, c.chain)])[0][0]:
             ctx.notes.append("not reproduced when run alone (%s build, %s): %s -> %s" % (build, c.kind, what, what0))
             continue
         reported += 1
@@ -551,7 +567,7 @@ def run(ctx):
         small = shrink_text(ctx, c, build, stack, model)
         r = Runner(ctx, build == "release", stack[build]).run([small])[0]
         ctx.violation("failing-input", "parsing this text in the %s build: %s" % (build, ending(r)[2]),
-                      case={"text": small, "kind": c.kind, "nest": c.nest, "build": build, "from": c.sample},
+                      case={"text": small, "kind": c.kind, "nest": c.nest, "chain": c.chain, "build": build, "from": c.sample},
                       impl=r[:9] if isinstance(r, list) else r, model=mres.get(i), judge={"verdict": False, "observation": ending(r)[2]})
     for f in cli_fail[:2]:
         ctx.violation("failing-input", f["what"], case=f["case"], impl=f["impl"], judge={"verdict": False})
@@ -579,8 +595,8 @@ def shrink_text(ctx, c, build, stack, model):
 
     def fails(text):
         e, k, _ = ending(r.run([text], lim)[0])
-        return not judge_all(model, [(c.nest if text == c.text else None, 0, e, k)])[0][0]
-    if c.nest is not None or len(c.text) > 20000:
+        return not judge_all(model, [(c.nest if text == c.text else None, 0, e, k, 0)])[0][0]
+    if c.nest is not None or c.chain or len(c.text) > 20000:
         return c.text
     lines = c.text.split("\n")
     if len(lines) > 2:
@@ -595,9 +611,9 @@ def shrink_text(ctx, c, build, stack, model):
 def cli_check(ctx, limit, cpy, model):
     """erg --mode parse on nests: the exit status must not be a signal; <= 200 parses, > LIMIT is a syntax error"""
     fails = []
+    # (the release build of the whole compiler takes half an hour here; the release parser is exercised in-process on a
+    # thread of the release STACK_SIZE, which is what exec_new_thread gives the CLI)
     builds = [("debug", ctx.erg_bin())]
-    if ctx.thorough:
-        builds.append(("release", ctx.erg_bin(release=True)))
     tmp = os.path.join(CACHE, "tmp-c09")
     os.makedirs(tmp, exist_ok=True)
     kinds = ["paren", "call", "set", "lambda", "unary", "record", "dict", "interp", "kwarg"] if ctx.thorough else ["paren", "call", "record", "lambda"]
@@ -616,12 +632,15 @@ def cli_check(ctx, limit, cpy, model):
     items, obs = [], []
     for bname, erg in builds:
         for k, n, p, text in jobs:
-            try:
-                q = subprocess.run([erg, "--mode", "parse", p], env=dict(os.environ, **ctx.erg_env()), stdout=subprocess.PIPE,
-                                   stderr=subprocess.PIPE, text=True, errors="replace", timeout=TIMEOUT * 3)
-                rc, err = q.returncode, q.stderr
-            except subprocess.TimeoutExpired:
-                rc, err = "timeout", ""
+            rc, err = "timeout", ""
+            for attempt in (1, 2):     # a loaded machine can make one run late: a time-out is confirmed by a second run
+                try:
+                    q = subprocess.run([erg, "--mode", "parse", p], env=dict(os.environ, **ctx.erg_env()), stdout=subprocess.PIPE,
+                                       stderr=subprocess.PIPE, text=True, errors="replace", timeout=TIMEOUT * 3)
+                    rc, err = q.returncode, q.stderr
+                    break
+                except subprocess.TimeoutExpired:
+                    pass
             if rc == "timeout":
                 e, nerr, what = 3, 0, "no answer within %d s" % (TIMEOUT * 3)
             elif rc < 0 or rc > 1 or "panicked" in err or "overflow" in err:
@@ -634,7 +653,7 @@ def cli_check(ctx, limit, cpy, model):
             items.append((n, n if k == "lamblock" else 0, e, nerr))
             obs.append((bname, k, n, p, what))
             ctx.count("cli")
-    for (ok, known), (bname, k, n, p, what), it in zip(judge_all(model, items), obs, items):
+    for (ok, known, _), (bname, k, n, p, what), it in zip(judge_all(model, items), obs, items):
         ctx.case(["cli", bname, k, n], nontrivial=True)
         if not ok:
             fails.append({"what": "`erg --mode parse` (%s build) on %d nested %s: %s" % (bname, n, k, what),
@@ -674,7 +693,7 @@ def replay(ctx, path):
         print("%s build: %s" % (build, what))
         if in_alphabet(res):
             print("model:", model.run([[0, res[9]]])[0], "(result errors frames depth); implementation:", (res[0], res[1], res[4], res[5]))
-        ok, known = judge_all(model, [(c.get("nest"), 0, e, k)])[0]
+        ok, known, _ = judge_all(model, [(c.get("nest"), 0, e, k, c.get("chain", 0))])[0]
         print("judge:", ok)
         if not ok:
             ctx.violation("failing-input", what, case=c, impl=res[:9] if isinstance(res, list) else res, judge={"verdict": False})
